@@ -494,6 +494,10 @@ func (db *MultiBucketBackend) PutObject(
 	objectFilePath := filepath.FromSlash(objectPath)
 	objectDir := filepath.Dir(objectFilePath)
 
+	if keyConflict(db.bucketFs, bucketName, objectPath) {
+		return result, invalidKeyError(objectName)
+	}
+
 	if objectDir != "." {
 		if err := db.bucketFs.MkdirAll(objectDir, db.dirMode); err != nil {
 			return result, err
